@@ -1,11 +1,91 @@
-(** C14 (stage A): obligations on the translated data shared with C02; the
-    unbounded theorems are in Proofs/ParserFacts.v as they are completed. *)
-From RV Require Import Model.Base Model.Spirv Model.Grammar Model.Inst Model.Parser Model.Link.
-From RV Require Import Gen.SpirvData Gen.TableData Gen.ParseData Inst.Linked.
+(** C14 - the parser drives the consumer in protocol order and obeys its
+    actions.  Statements only; every proof is [exact] of a lemma of
+    Proofs/ProtocolFacts.v.  All theorems hold for EVERY grammar data, state
+    type, consumer (an arbitrary state machine answering Continue / Stop /
+    Error e), byte string and initial state: no bound, no hypothesis. *)
+From RV Require Import Model.Base Model.Spirv Model.Grammar Model.Inst Model.Decoder Model.Parser Model.Link Model.Loader.
+From RV Require Import Gen.SpirvData Gen.TableData Gen.ParseData Inst.Linked Proofs.ProtocolFacts.
 
+(** the tables the parser model runs on are the ones translated from the source on this run *)
 Theorem C14_tables_link :
   resolve_all op_enum core_raw = Some core_table /\
   link_arms enums flags kind_names decode_raw args_raw parse_arms_raw = Some arms_linked.
 Proof. exact (conj table_resolves arms_link). Qed.
 
+(** the logging wrapper observes without changing behaviour *)
+Theorem C14_log_transparent :
+  forall (G : gdata) S (C : consumer S) bytes s0,
+    fst (fst (parse G (logc C) bytes (s0, []))) = fst (parse G C bytes s0) /\
+    snd (parse G (logc C) bytes (s0, [])) = snd (parse G C bytes s0).
+Proof. exact (fun G S => @log_transparent S G). Qed.
+
+(** initialize, header, one call per instruction, finalize - each at most once, in this order *)
+Theorem C14_protocol_order :
+  forall (G : gdata) S (C : consumer S) bytes s0,
+  exists hs is fin,
+    map fst (log_of G C bytes s0) = EvInit :: (hs ++ map EvInst is ++ fin) /\
+    (hs = [] \/ exists h, hs = [EvHeader h]) /\
+    (fin = [] \/ fin = [EvFin]) /\
+    (hs = [] -> is = [] /\ fin = []) /\
+    is = delivered (log_of G C bytes s0).
+Proof. exact (fun G S => @protocol_order S G). Qed.
+
+(** the instructions delivered are those of the stream, in stream order *)
+Theorem C14_stream_order :
+  forall (G : gdata) S (C : consumer S) bytes s0 h d1,
+  parse_header (mkdec bytes) = Ok (h, d1) ->
+  (exists rest, insts_of G (Datatypes.S (length bytes)) [] 0 d1 = delivered (log_of G C bytes s0) ++ rest) /\
+  (Forall (fun y => snd y = Continue) (log_of G C bytes s0) ->
+   delivered (log_of G C bytes s0) = insts_of G (Datatypes.S (length bytes)) [] 0 d1).
+Proof. exact (fun G S => @instructions_in_stream_order S G). Qed.
+
+(** a stop or error answer ends the parse at once with the corresponding result; no further callback *)
+Theorem C14_stop_is_immediate :
+  forall (G : gdata) S (C : consumer S) bytes s0,
+  exists L' x,
+    log_of G C bytes s0 = L' ++ [x] /\
+    Forall (fun y => snd y = Continue) L' /\
+    (snd x <> Continue -> snd (parse G C bytes s0) = consume (snd x)).
+Proof. exact (fun G S => @stop_is_immediate S G). Qed.
+
+Theorem C14_consume_values :
+  consume Stop = Er PStop /\ (forall e, consume (AError e) = Er (PConsumerError e)) /\ consume Continue = Ok tt.
+Proof. exact (conj eq_refl (conj (fun e => eq_refl) eq_refl)). Qed.
+
+(** finalize only if the whole binary was parsed without error *)
+Theorem C14_finalize_only_when_complete :
+  forall (G : gdata) S (C : consumer S) bytes s0 a,
+  In (EvFin, a) (log_of G C bytes s0) ->
+  exists L',
+    log_of G C bytes s0 = L' ++ [(EvFin, a)] /\
+    Forall (fun y => snd y = Continue) L' /\
+    (exists h ah, In (EvHeader h, ah) L') /\
+    snd (parse G C bytes s0) = consume a.
+Proof. exact (fun G S => @finalize_only_when_complete S G). Qed.
+
+Theorem C14_parse_error_no_finalize :
+  forall (G : gdata) S (C : consumer S) bytes s0,
+  ((exists e, snd (parse G C bytes s0) = Er e /\ e <> PStop /\ (forall n, e <> PConsumerError n)) \/
+   (exists p, snd (parse G C bytes s0) = Panic p)) ->
+  (forall a, ~ In (EvFin, a) (log_of G C bytes s0)) /\
+  Forall (fun y => snd y = Continue) (log_of G C bytes s0).
+Proof. exact (fun G S => @parse_error_no_finalize S G). Qed.
+
+(** the loader yields a module only for binaries parsed to the end *)
+Theorem C14_loader_only_if_complete :
+  forall G Op preds arms fin bytes,
+  snd (load_bytes G Op preds arms fin bytes) = Ok tt ->
+  exists L',
+    log_of G (loader_consumer Op preds arms fin) bytes {| lw_state := linit; lw_panic := false |}
+    = L' ++ [(EvFin, Continue)].
+Proof. exact loader_module_only_if_complete. Qed.
+
 Print Assumptions C14_tables_link.
+Print Assumptions C14_log_transparent.
+Print Assumptions C14_protocol_order.
+Print Assumptions C14_stream_order.
+Print Assumptions C14_stop_is_immediate.
+Print Assumptions C14_consume_values.
+Print Assumptions C14_finalize_only_when_complete.
+Print Assumptions C14_parse_error_no_finalize.
+Print Assumptions C14_loader_only_if_complete.
